@@ -84,10 +84,11 @@ int main(void)
     import step_smt
     import adv_smt
     import interp_smt
+    import mt_smt
     # the groups of SMT obligations are built concurrently (each runs clang on its own translation units)
     from concurrent.futures import ThreadPoolExecutor
-    with ThreadPoolExecutor(max_workers=4) as ex:
-        parts = [f.result() for f in [ex.submit(pred_smt.build), ex.submit(step_smt.build), ex.submit(adv_smt.build), ex.submit(interp_smt.build)]]
+    with ThreadPoolExecutor(max_workers=5) as ex:
+        parts = [f.result() for f in [ex.submit(pred_smt.build), ex.submit(step_smt.build), ex.submit(adv_smt.build), ex.submit(interp_smt.build), ex.submit(mt_smt.build)]]
     vcs = [v for pv, _ in parts for v in pv]
     fns = [f for _, pf in parts for f in pf]
     return {
